@@ -197,11 +197,19 @@ int64_t wall_id_old(uint_fast32_t ngb) {
 // would PointLocations::generalngbiterator index outside its bucket grid?
 // (same arithmetic as PointLocations.hpp:49-66 and :480-486; only used to avoid
 // undefined behaviour inside the harness process)
-bool query_overflows(const Vec &q, const Box<> &box, size_t n, size_t bucket) {
+bool query_overflows(const Vec &q0, const Box<> &box, size_t n, size_t bucket,
+                     bool oldgrid = false) {
   const uint_fast32_t npc = std::min<uint_fast32_t>(bucket, n);
   const double desired = n / npc;
   const uint_fast32_t nc = std::round(std::cbrt(desired));
+  Vec q = q0;
+  if (oldgrid) // the unit conversion of OldVoronoiGrid::get_index (a no-op in exact arithmetic)
+    for (int k = 0; k < 3; ++k)
+      q[k] = box.get_anchor()[k] + (q[k] - box.get_anchor()[k]) *
+                                       box.get_sides()[k] / box.get_sides()[k];
   for (int k = 0; k < 3; ++k) {
+    if (!(q[k] < box.get_anchor()[k] + box.get_sides()[k]))
+      return true;
     const double side = box.get_sides()[k] / nc;
     const uint_fast32_t a = (q[k] - box.get_anchor()[k]) / side;
     if (a >= nc)
@@ -240,7 +248,7 @@ GridOut run_grid(const std::vector<Vec> &pos, const Box<> &box, int threads,
       }
     }
     for (auto &q : queries) {
-      if (query_overflows(q, box, n, isnew ? NEWVORONOIGRID_NUM_BUCKET : 10))
+      if (query_overflows(q, box, n, isnew ? NEWVORONOIGRID_NUM_BUCKET : 10, !isnew))
         o.index.push_back(-2);
       else
         o.index.push_back((int64_t)grid.get_index(q));
@@ -331,6 +339,10 @@ template <class GRID>
 std::string run_isolated(const std::vector<Vec> &pos, const Box<> &box,
                          int threads, const std::vector<Vec> &queries,
                          bool isnew, GridOut &out) {
+  if (getenv("C15_NOFORK")) { // debugging aid
+    out = run_grid<GRID>(pos, box, threads, queries, isnew);
+    return "";
+  }
   int fd[2];
   if (pipe(fd) != 0)
     return "pipe failed";
@@ -1355,6 +1367,12 @@ VResult o_index(const VCase &c) {
     return r;
   r.label(P.pos.size() <= 10 ? "one-bucket-old" : "several-buckets");
   r.nontrivial = true;
+  if (getenv("C15_TRACE")) {
+    std::ofstream f("last.case");
+    VCase cc = c;
+    cc.prop = "index_near_walls";
+    f << cc.to_text();
+  }
   for (int which = 0; which < 2 && r.ok; ++which) {
     GridOut G;
     const std::string err =
@@ -1363,6 +1381,8 @@ VResult o_index(const VCase &c) {
     const char *name = which == 0 ? "NewVoronoiGrid" : "OldVoronoiGrid";
     if (!err.empty()) {
       r.fail(fmt("%s: construction failed on a valid input: %s", name, err.c_str()));
+      if (getenv("C15_TRACE"))
+        rename("last.case", "sig.case");
       return r;
     }
     for (size_t t = 0; t < P.queries.size(); ++t)
